@@ -15,6 +15,8 @@ unsigned int nondet_uint(void);
 long nondet_long(void);
 unsigned long nondet_ulong(void);
 unsigned long __verif_fork_u(unsigned long, unsigned long);
+double __verif_dyadic(unsigned long q, unsigned long bound);
+void __verif_mark(unsigned long);
 unsigned char nondet_uchar(void);
 double nondet_double(void);
 }
